@@ -5,7 +5,7 @@ PD = "core/src/report/price_db.rs"
 GROUP = {
     "name": "convert",
     "uses": "use std::collections::HashMap;\nuse vstd::std_specs::hash::*;\nuse core::ops::{Add, AddAssign, Mul, MulAssign, Neg, Sub, SubAssign};\nuse vstd::std_specs::cmp::*;\n",
-    "broadcast": ["rust_decimal::axiom_round", "rust_decimal::axiom_sign", "key_axioms::axiom_commodity_key_model", "key_axioms::axiom_account_key_model", "amount_lemmas::lemma_single_entry", "amount_lemmas::lemma_ncomm"],
+    "broadcast": ["rust_decimal::axiom_round", "rust_decimal::axiom_sign", "key_axioms::axiom_commodity_key_model", "key_axioms::axiom_account_key_model", "cache_key_axiom::axiom_cache_key_model", "amount_lemmas::lemma_single_entry", "amount_lemmas::lemma_ncomm"],
     "parts": [
         ("text", "rust_decimal.rs"),
         ("text", "handles.rs"),
@@ -17,14 +17,45 @@ GROUP = {
         ("text", "amount_spec.rs"),
         *opaque(SINGLE), *opaque(POSTING), *opaque(AMOUNT),
         U("ConversionError", PD, [r"pub enum ConversionError<'ctx>"]),
+        ("text", "prices_base.rs"),
+        U("Distance(type)", PD, [r"struct Distance\b"], derive="Clone"),
+        U("WithDistance(type)", PD, [r"struct WithDistance<T>"]),
+        U("Entry(type)", PD, [r"struct Entry\b"]),
+        ("text", "prices_table.rs"),
         ("text", "convert_spec.rs"),
+        # ---- convert_single, whole: memoised table look-up, value x rate or RateNotFound (C09 + C10) ----
+        U("NaivePriceRepository(type)", PD, [r"struct NaivePriceRepository<'ctx>"]),
+        U("PriceRepository(type)", PD, [r"pub struct PriceRepository<'ctx>"]),
+        U("PriceRepository::new", PD, [r"impl<'ctx> PriceRepository<'ctx>", r"fn new\b"], fn="new", wrap=("impl PriceRepository {", "}"),
+          rewrites=[RET()],
+          contract="""
+        ensures r.inner == inner, r.cache_consistent(), r.cache@.len() == 0,   // @PriceRepository.new.empty_cache
+"""),
+        U("PriceRepository::convert_single", PD, [r"impl<'ctx> PriceRepository<'ctx>", r"pub fn convert_single\b"], fn="convert_single",
+          wrap=("impl PriceRepository {", "}"),
+          rewrites=[RET(), ("R29",)],
+          contract="""
+        requires old(self).cache_consistent(),
+        ensures
+            final(self).cache_consistent(),                // the memo never disagrees with the records ...   @convert_single.memo_stays_consistent
+            final(self).inner == old(self).inner,          // ... and converting never changes them   @convert_single.records_untouched
+            // C09: A into A is the identity
+            value.commodity == commodity_with ==> r == Ok::<SingleAmount, ConversionError>(value),   // @convert_single.identity
+            // C09/C10: otherwise value x the rate the records give for (target, date) - whatever was asked before - in the target commodity
+            (value.commodity != commodity_with && old(self).inner.table(commodity_with, date).contains_key(value.commodity)) ==>
+                (r matches Ok(x) && x.commodity == commodity_with
+                    && x.v() == value.v() * old(self).inner.table(commodity_with, date)[value.commodity].1.val()),   // @convert_single.value_times_rate_of_this_target_and_date
+            // C09/C10: no chain = the conversion fails
+            (value.commodity != commodity_with && !old(self).inner.table(commodity_with, date).contains_key(value.commodity)) ==> r is Err,   // @convert_single.no_rate_fails
+"""),
         U("convert_amount", PD, [r"pub fn convert_amount<'ctx>"], fn="convert_amount",
           rewrites=[RET(), ("R25d",)],
           contract="""
+    requires old(price_repos).cache_consistent(),
     ensures
-        // the rates are a function of the records; converting never changes them
-        final(price_repos).records() == old(price_repos).records(),
-        forall|a: Commodity, b: Commodity, d: NaiveDate| final(price_repos).rate(a, b, d) == old(price_repos).rate(a, b, d),
+        // the rates are a function of the records; converting never changes them, and the memo stays consistent with them
+        final(price_repos).cache_consistent(),
+        final(price_repos).inner == old(price_repos).inner,
         // C10: every holding is converted exactly once (amounts already in the target commodity untouched, others value x rate) and summed ...
         all_convertible(old(price_repos), amount.iter_listing(), amount.iter_listing().len() as int, commodity_with, date) ==>
             (r matches Ok(x) && x@ == (if amount.iter_listing().len() == 0 { Map::<Commodity, real>::empty() }
@@ -36,8 +67,8 @@ GROUP = {
         invariant
             i__ <= items__@.len(),
             items__@ == amount.iter_listing(),
-            price_repos.records() == old(price_repos).records(),
-            forall|a: Commodity, b: Commodity, d: NaiveDate| price_repos.rate(a, b, d) == old(price_repos).rate(a, b, d),
+            price_repos.cache_consistent(),
+            price_repos.inner == old(price_repos).inner,
             all_convertible(old(price_repos), items__@, i__ as int, commodity_with, date),
             result@ == (if i__ == 0 { Map::<Commodity, real>::empty() }
                 else { Map::<Commodity, real>::empty().insert(commodity_with, conv_sum(old(price_repos), items__@, i__ as int, commodity_with, date)) }),
